@@ -6,7 +6,7 @@ temporary is assigned exactly once) and stops at parameters, multi-definition us
 """
 from . import mir
 
-MAXD = 60
+MAXD = 120
 
 
 def targets_str(body, place):
@@ -103,6 +103,16 @@ def expr_local(body, l, depth=0, stop=()):
         nm = mir.norm(name_) if name_ else "<indirect>"
         return _note_ty(body, ("call", nm, tuple(expr(body, a, depth + 1, stop) for a in t["args"]), name_, d[1]), t["dest"]["ty"])
     return ("var", l, name or "_%d" % l)
+
+
+def expr_def(body, d, stop=()):
+    """value expression of one definition record from mir.defs (assignment statement or call terminator)"""
+    if d[0] == "stmt":
+        return expr_rv(body, d[3]["rv"], 0, stop)
+    t = d[2]
+    name_, info = mir.callee(t)
+    nm = mir.norm(name_) if name_ else "<indirect>"
+    return _note_ty(body, ("call", nm, tuple(expr(body, a, 1, stop) for a in t["args"]), name_, d[1]), t["dest"]["ty"])
 
 
 def expr(body, op, depth=0, stop=()):
